@@ -642,6 +642,10 @@ fn expand_brace_range(tokens: &mut types::Tokens) {
 
         // safe to unwrap here, since the `is_match` above already validated
         let caps = re.captures(token).unwrap();
+        // text around the braces is kept: `img{1..3}.png`
+        let m_all = caps.get(0).unwrap();
+        let prefix = &token[..m_all.start()];
+        let suffix = &token[m_all.end()..];
 
         let start = match caps[1].to_string().parse::<i32>() {
             Ok(x) => x,
@@ -679,12 +683,12 @@ fn expand_brace_range(tokens: &mut types::Tokens) {
         let mut n = start;
         if start > end {
             while n >= end {
-                result.push(format!("{}", n));
+                result.push(format!("{}{}{}", prefix, n, suffix));
                 n -= incr;
             }
         } else {
             while n <= end {
-                result.push(format!("{}", n));
+                result.push(format!("{}{}{}", prefix, n, suffix));
                 n += incr;
             }
         }
